@@ -321,11 +321,24 @@ func (g vfSfvGen) display() string {
 			if c := sb.String()[sb.Len()-1]; c == '%' || c == '"' {
 				sb.WriteString("25")
 			}
-		case p < 14:
+		case p < 12:
 			// a well-formed code point of 1..4 bytes, escaped
 			r := []rune{0x41, 0xe9, 0x7ff, 0x800, 0x20ac, 0xd7ff, 0xe000, 0xfffd, 0xfffe, 0xffff, 0x10000, 0x1f4a9, 0x10ffff,
 				rune(0x80 + g.r.Intn(0x780)), rune(0x800 + g.r.Intn(0xd000)), rune(0x10000 + g.r.Intn(0x100000))}[g.r.Intn(16)]
 			sb.WriteString(g.escape([]byte(string(r)), g.r.Intn(15) == 0))
+		case p < 15:
+			// a multi-byte sequence interrupted after k octets by 1..2 unescaped characters or an
+			// escaped ASCII character, then completed, completed with one octet too few, or not
+			b := []byte(string([]rune{0xe9, 0x7ff, 0x20ac, 0xfffe, 0x1f600, 0x10ffff,
+				rune(0x80 + g.r.Intn(0x780)), rune(0x800 + g.r.Intn(0xd000)), rune(0x10000 + g.r.Intn(0x100000))}[g.r.Intn(9)]))
+			k := 1 + g.r.Intn(len(b)-1)
+			end := []int{len(b), len(b), len(b) - 1, k}[g.r.Intn(4)]
+			if end < k {
+				end = k
+			}
+			sb.WriteString(g.escape(b[:k], false))
+			sb.WriteString(g.pick("a", " ", "(", "-", "x-", "( ", "--", "zz", "%28", "%41"))
+			sb.WriteString(g.escape(b[k:end], false))
 		case p < 17:
 			// arbitrary escaped bytes (mostly not UTF-8)
 			b := make([]byte, 1+g.r.Intn(3))
